@@ -8,7 +8,27 @@ LEVEL = {
  "C13": ("machine-checked: evaluation is a homomorphism for every expression tree over both backend LC classes (dict-merge and term-list), duplicate-free invariant preserved; the five modulus literals are re-extracted from the source on every run and proved equal to the published curve orders, which are proved prime by Pratt certificates; fieldinverse proved correct for every non-multiple of the prime (negative, unreduced) via Fermat; tied to the real classes by structural comparison of random expression trees per backend", "5/C13",
          "Lean proof (induction on expression trees, Pratt certificates via lucas_primality, Fermat) + regenerated constants + differential correspondence per backend"),
 }
+LEVEL.update({
+ "C01": ("machine-checked invariant over ALL programs of the instruction language (every operator in every operand-kind combination, assertions, selection, arrays, guarded regions with either guard value), all inputs, bitlengths and primes: every constraint emitted is satisfied by the recorded witness (C01_partial, for the fragment: guarded regions not nested, no '/' next to a guarded region); the model is tied to the code by V+S+W correspondence on generated programs and the oracle evaluates every recorded constraint of the real run", "5/C01",
+         "Lean proof (invariant by induction over the program, one preservation lemma per gadget) + differential correspondence + direct constraint evaluation on the real backend"),
+ "C02": ("machine-checked gadget-level soundness against ALL assignments to ALL wires, all operand values, all widths, every prime (size side condition only for uniqueness): product, booleanity, zero test, sign/range gadget and the four order comparisons, bit decomposition, selection, exact division, bitwise and/or/xor, abs; the two unsound families are proved unsound by closed counterexamples (divmod quotient, bitwise with a constant); tied by S-level correspondence; the oracle enumerates the witness space of the real constraint system over p=97", "5/C02",
+         "Lean proof over ZMod p (emission lemmas + field algebra) + exhaustive small-field witness-space search on the real R1CS"),
+ "C03": ("machine-checked: for every assertion kind and declaration, any assignment satisfying the emitted constraints makes the asserted relation hold (so they are unsatisfiable when it is false), the width enforced is the width requested, the run-time checks are the integer relations, accepted assertions keep the invariant; oracle: accepted-at-run-time == circuit-satisfiable on operands on both sides of every boundary (exhaustive search over p=97)", "5/C03",
+         "Lean proof over ZMod p + run-time/in-circuit relation comparison by exhaustive witness search on the real R1CS"),
+ "C04": ("machine-checked invariant over all programs of the fragment, all intermediate and final values (every register, containers element-wise), also under false guards: reported value congruent to the wire expression on the recorded witness; linear arithmetic coherent in every mode; oracle evaluates every secret of every register of the real run, incl. ignore-errors mode", "5/C04",
+         "Lean proof (coherence invariant by induction over the program) + differential correspondence + direct evaluation on the real backend"),
+ "C06": ("machine-checked relational theorem over ALL programs of the instruction language and ALL pairs of runs from shape-equal states (values, witness and error-suppression flag may differ; input literals and revealed values differ): equal shapes at the end and equal wire expressions in every register (C06, no exclusions); oracle: two real runs of the same program with re-drawn inputs / checks off on invalid inputs / flipped secret conditions must have identical shapes", "5/C06",
+         "Lean proof (relational Hoare rule over the tracer monad, one lemma per function, induction over the program) + S-level correspondence + two-run shape comparison on the real code"),
+ "C08": ("machine-checked over ALL histories (trees of guarded()/try/raise/operation events, any depth, any guard values and kinds): the guard triple after a history entered through guarded() equals the triple before it, on normal and exceptional exit (C08_restore); error suppression nests as a disjunction, the outermost guard is the condition; closed counterexample for bare add_guard/restore_guard pairs (block API); oracle probes the real module globals around every region and compares pairs of runs with different guard values", "5/C08",
+         "Lean proof (mutual structural induction over event trees) + history correspondence + direct probing of runtime.guard/_ignore_errors/LinComb.ONE"),
+})
 NOTE = {
+ "C01": "trusted: Lean kernel; hand-written model tied by correspondence (bounded by the generator); fragment exclusions named in Spec/R1CS.lean (nested guarded regions, '/' next to a guarded region) are covered by correspondence + oracle only; user-selected ignore-errors mode is outside the property.",
+ "C02": "trusted: Lean kernel; emission lemmas tie the algebra to the model's own output; unguarded states only; the oracle's field is 97 (search space only).",
+ "C03": "trusted: Lean kernel; unguarded states; relation statements are in the field (integer ordering follows when operands are range-bounded).",
+ "C04": "trusted: as C01; user-selected ignore-errors mode, nested regions and '/' next to a region are covered by correspondence + oracle only.",
+ "C06": "trusted: Lean kernel; the theorem needs both runs to complete and free registers (input literals, revealed values) to be used only as witness constructors' arguments; ConstVal arguments are circuit constants.",
+ "C08": "trusted: Lean kernel; CPython's exception propagation is modelled by the (state, raised?) pair; the block API is represented by bare add_guard/restore_guard pairs; the value of the nested guard (AND gadget) is validated by correspondence only.",
  "C10": "trusted: Lean kernel; hand-written encoder model tied by byte comparison on generated programs and directly installed extreme traces; harness/r1csread.py; snarkjs itself absent. Size predicate Trace.WF (counts < 2^32, section < 2^64, p < 2^256) is an explicit hypothesis.",
  "C13": "trusted: Lean kernel; that the three literals in Spec/Curves.lean are the published group orders; hand-written LC models tied by structural comparison (insertion order, zero coefficients) on the real classes; libsnark not loadable here: not covered; flatbuffers stand-in only lets the zkinterface modules import.",
 }
